@@ -80,6 +80,8 @@ theorem applyRes_exitCount (cfg : Cfg) (pol : Policy) (step : Nat) (tickEv : Ev)
   | failed exc failedAt =>
     simp only [applyRes, Res.isOutcome, if_true]
     split
+    · omega
+    split
     · simp [exitCount_append, exitCount, Cmd.isExit]
     all_goals
       split
